@@ -121,6 +121,29 @@ def check(ss, phase, probes=None, full=True):
                             bad('alias', 'group %s.get(%s, idx=%r) returns %r, slot holds %r' % (grp.class_name, name, idx, g2, exp[i]),
                                 what='group_get')
                             return out
+                # the caller's own idx container, edited in place between two calls (same object, same length): every call must
+                # answer for the contents it is given (seeded change C10-group-get-identity-memo)
+                if mdl.n >= 2:
+                    grp = ss.groups[mdl.group]
+                    lst = [mdl.idx.v[0], mdl.idx.v[mdl.n - 1]]
+                    want = [exp[0], exp[mdl.n - 1]]
+                    for owner, olabel in ((mdl, mdl.class_name), (grp, 'group ' + grp.class_name)):
+                        if owner is grp and name not in getattr(grp, 'common_vars', []):
+                            continue
+                        for rnd in (0, 1):
+                            try:
+                                got = [float(x) for x in owner.get(src=name, idx=lst, attr='v')]
+                            except Exception as e:
+                                bad('alias', '%s.get(%s, idx=%r) raised %s' % (olabel, name, lst, type(e).__name__), what='list_get')
+                                return out
+                            if got != want:
+                                bad('alias', '%s.get(%s, idx=%r)%s returns %r, slots hold %r' %
+                                    (olabel, name, lst, ' after the list was edited in place' if rnd else '', got, want),
+                                    what='list_get_reused' if rnd else 'list_get')
+                                return out
+                            lst[0], lst[1] = lst[1], lst[0]
+                            want = want[::-1]
+                        probes['list_get_reused'] = probes.get('list_get_reused', 0) + 1
             probes['reads_checked'] = probes.get('reads_checked', 0) + 1
             # ---- external links follow device indices
             for name, ev in mdl.cache.vars_ext.items():
